@@ -281,7 +281,69 @@ class Calls(Harness):
         vloop.run(main)
 
 
+class Callbacks(Harness):
+    """Histories of add_callback / remove_callback, then an unsolicited frame: every callback that is registered at that
+    moment receives it exactly once, removed ones do not, and removing returns the callback that was registered."""
+
+    name = "c06_callbacks"
+    must_reach = ("removed-middle", "re-added")
+    functions = ("EZSP.add_callback", "EZSP.remove_callback", "EZSP.handle_callback", "EZSP.frame_received")
+
+    def run(self, ctx, ops=5, version=8):
+        async def main(loop):
+            gw = Gw(loop)
+            ez = make_ezsp(version, gw)
+            ph = ez._protocol
+            logs = {}
+            ids = {}  # live callbacks: key -> registration id
+            fns = {}
+            nxt = 0
+            hist = []
+            for i in range(ops):
+                live = sorted(ids)
+                kinds = ["add"] + ["remove:%d" % k for k in live] + ["event"]
+                op = kinds[ctx.choice("op%d" % i, len(kinds))]
+                hist.append(op)
+                if op == "add":
+                    k = nxt
+                    nxt += 1
+                    logs[k] = []
+                    fns[k] = (lambda kk: (lambda *a: logs[kk].append(a)))(k)
+                    ids[k] = ez.add_callback(fns[k])
+                    if len(hist) >= 2 and any(h.startswith("remove") for h in hist[:-1]):
+                        ctx.label("re-added")
+                elif op.startswith("remove"):
+                    k = int(op.split(":")[1])
+                    if live and k != live[-1] and k != live[0] or (len(live) >= 2 and k == live[0]):
+                        ctx.label("removed-middle")
+                    try:
+                        got = ez.remove_callback(ids.pop(k))
+                    except Exception as e:
+                        ctx.fail("removing callback %d after %r raised %s" % (k, hist, type(e).__name__), "remove-raises")
+                    ctx.check(got is fns[k], "remove_callback returned another callback than the one registered under that id (history %r)" % hist, "remove-wrong-callback")
+                else:
+                    before = {k: len(v) for k, v in logs.items()}
+                    fid, _tx, rx = ph.COMMANDS["stackStatusHandler"]
+                    ez.frame_received(bytes(E.header(version, 0x99, fid, callback=True) + E.enc_schema(rx, [0x90])))
+                    for k in logs:
+                        want = 1 if k in ids else 0
+                        ctx.check(len(logs[k]) - before[k] == want, "callback %d (%s) received an unsolicited frame %d times after history %r"
+                                  % (k, "registered" if k in ids else "removed", len(logs[k]) - before[k], hist), "callback-delivery")
+            # closing event
+            before = {k: len(v) for k, v in logs.items()}
+            fid, _tx, rx = ph.COMMANDS["stackStatusHandler"]
+            ez.frame_received(bytes(E.header(version, 0x99, fid, callback=True) + E.enc_schema(rx, [0x91])))
+            for k in logs:
+                want = 1 if k in ids else 0
+                ctx.check(len(logs[k]) - before[k] == want, "callback %d (%s) received the closing frame %d times after history %r"
+                          % (k, "registered" if k in ids else "removed", len(logs[k]) - before[k], hist), "callback-delivery")
+            ctx.observe(hist, {k: len(v) for k, v in logs.items()})
+
+        vloop.run(main)
+
+
 CALLS = Calls()
+CALLBACKS = Callbacks()
 
 
 def main(tier):
@@ -296,12 +358,14 @@ def main(tier):
         c.run("checks.c06:CALLS", {"n": 2, "versions": [4, 5, 8, 14], "seqs": [0, 255]})
         c.run("checks.c06:CALLS", {"n": 3, "versions": [8], "seqs": [254]})
         c.run("checks.c06:CALLS", {"n": 3, "versions": [4], "seqs": [255], "behaviours": "basic", "cancel": True})
+        c.run("checks.c06:CALLBACKS", {"ops": 5})
         c.out_of_bounds += ["more than 3 concurrent callers", "start sequence numbers other than 0, 254, 255", "protocol versions other than 4, 5, 8, 14"]
     else:
         c.run("checks.c06:CALLS", {"n": 2, "versions": [4, 5, 8, 13, 14], "seqs": [0, 1, 254, 255]})
         c.run("checks.c06:CALLS", {"n": 3, "versions": [4, 14], "seqs": [254]})
         c.run("checks.c06:CALLS", {"n": 4, "versions": [8], "seqs": [253], "behaviours": "basic"})
         c.run("checks.c06:CALLS", {"n": 3, "versions": [8], "seqs": [255], "behaviours": "basic", "cancel": True})
+        c.run("checks.c06:CALLBACKS", {"ops": 7})
         c.out_of_bounds += ["more than 4 concurrent callers", "start sequence numbers outside {0, 1, 253, 254, 255}"]
     return c.finish()
 
